@@ -234,7 +234,7 @@ pub(crate) fn mk_meta(pagesize: u64, num_pages: u64, tx_id: u64) -> Meta {
 // ---- C05-Ob2 / C10-Ob3 / C16-Ob2: TxFreelist::allocate: ceil division for every (bytes, pagesize),
 //      free set first, else high-water mark which advances by exactly the count; header fields set;
 //      dirty-page map records (id -> bytes)
-// @ob props=C05,C10,C16 tier=quick cap=200 fns=TxFreelist::allocate,Freelist::allocate bound="pagesize any u64 in [64,2^40], bytes in [40,4096], <=4 pages per run, free subset of 2..=9, high-water mark any in [10,2^40)" unwind=10
+// @ob props=C05,C10,C16 tier=quick cap=200 fns=TxFreelist::allocate,Freelist::allocate bound="pagesize any u64 in [64,2^40], bytes in [40,512] (one model arena block), <=4 pages per run, free subset of 2..=9, high-water mark any in [10,2^40)" unwind=10
 #[kani::proof]
 #[kani::unwind(10)]
 fn txfl_allocate_step() {
@@ -246,7 +246,7 @@ fn txfl_allocate_step() {
     let fl = fl_from_mask(mask);
     let mut tf = TxFreelist::new(mk_meta(pagesize, hw, 7), fl);
     let bytes: u64 = kani::any();
-    kani::assume(bytes >= 40 && bytes <= 4096);
+    kani::assume(bytes >= 40 && bytes <= 512);
     // reference page count
     let np = (bytes + pagesize - 1) / pagesize;
     kani::assume(np <= 4);
@@ -292,7 +292,7 @@ fn txfl_allocate_twice_disjoint() {
     let mut tf = TxFreelist::new(mk_meta(pagesize, hw, 7), fl_from_mask(mask));
     let b1: u64 = kani::any();
     let b2: u64 = kani::any();
-    kani::assume(b1 >= 40 && b1 <= 600 && b2 >= 40 && b2 <= 600);
+    kani::assume(b1 >= 40 && b1 <= 512 && b2 >= 40 && b2 <= 512);
     let (id1, n1) = {
         let p = tf.allocate(b1).unwrap();
         (p.id, p.overflow + 1)
